@@ -5,6 +5,8 @@ CONSTANTS MaxCalls = 0
   FixEatKill = TRUE
   ReapOnRefusal = TRUE
   FixDonePrio = TRUE
+  AllowDeadline = TRUE
+  DeadlineBreaks = TRUE
 SPECIFICATION TSpec
 CONSTRAINT Mark
 POSTCONDITION Report
